@@ -338,6 +338,8 @@ static int ratom_match(struct ratom *ra, struct rstate *rs)
 
 static struct rnode *rnode_parse(char **pat);
 
+static int re_bad;		/* set when the pattern is malformed */
+
 static struct rnode *rnode_grp(char **pat)
 {
 	struct rnode *rnode = NULL;
@@ -346,11 +348,14 @@ static struct rnode *rnode_grp(char **pat)
 	++*pat;
 	if ((*pat)[0] != ')') {
 		rnode = rnode_parse(pat);
-		if (!rnode)
+		if (!rnode) {
+			re_bad = 1;	/* nothing inside the group */
 			return NULL;
+		}
 	}
 	if ((*pat)[0] != ')') {
 		rnode_free(rnode);
+		re_bad = 1;		/* the group is not closed */
 		return NULL;
 	}
 	++*pat;
@@ -403,12 +408,13 @@ static struct rnode *rnode_atom(char **pat)
 		} else {
 			rnode->maxcnt = rnode->mincnt;
 		}
-		++*pat;
-		if (rnode->mincnt > NREPS || rnode->maxcnt > NREPS ||
+		if (**pat != '}' || rnode->mincnt > NREPS || rnode->maxcnt > NREPS ||
 				(rnode->maxcnt >= 0 && rnode->maxcnt < rnode->mincnt)) {
 			rnode_free(rnode);
+			re_bad = 1;	/* a bad repetition count */
 			return NULL;
 		}
+		++*pat;
 	}
 	return rnode;
 }
@@ -550,12 +556,19 @@ static void rnode_emit(struct rnode *n, struct regex *p)
 
 int regcomp(regex_t *preg, char *pat, int flg)
 {
-	struct rnode *rnode = rnode_parse(&pat);
+	struct rnode *rnode;
 	struct regex *re;
-	int n = rnode_count(rnode) + 3;
+	int n;
 	int mark;
+	re_bad = 0;
+	rnode = rnode_parse(&pat);
 	if (!rnode)
 		return 1;
+	if (re_bad || *pat) {		/* a malformed construct or an unmatched ')' */
+		rnode_free(rnode);
+		return 1;
+	}
+	n = rnode_count(rnode) + 3;
 	if (n >= NINST) {		/* too many instructions */
 		rnode_free(rnode);
 		return 1;
